@@ -153,9 +153,9 @@ def run(ctx, only=None):
     coq = vp_coq.full_check("C06", ctx, fams=("dft",))
     sizes = dc.QUICK_SIZES if ctx.quick() else dc.THOROUGH_SIZES
     msizes = [N for N in sizes if N <= (169 if ctx.quick() else 256)]
-    mcases = dc.gen_wake_cases(ctx, 12 if ctx.quick() else 160, msizes, prefix="m")
-    ocases = dc.gen_wake_cases(ctx, 150 if ctx.quick() else 5000, sizes, prefix="w")
-    groups = dc.gen_relation_groups(ctx, 60 if ctx.quick() else 2000, sizes)
+    mcases = dc.gen_wake_cases(ctx, 16 if ctx.quick() else 160, msizes, prefix="m")
+    ocases = dc.gen_wake_cases(ctx, 260 if ctx.quick() else 5000, sizes, prefix="w")
+    groups = dc.gen_relation_groups(ctx, 90 if ctx.quick() else 2000, sizes)
     allc = mcases + ocases + [c for g in groups for c in g["cases"]]
     ir = dc.run_impl(ctx, "".join(c.impl_text("wake") for c in allc))
     ctx.log("implementation ran %d wake cases" % len(allc))
